@@ -388,7 +388,7 @@ func c04(p *P) {
 	}
 	if c := p.fn("C04.R7", "certs.MakePowerTableCID"); c != nil {
 		m := callsTo(c, false, "gpbft.PowerEntries.MarshalCBOR")
-		ok := len(m) == 1 && (m[0].Arg(0) == "$0" || strings.HasSuffix(m[0].Arg(0), "gpbft.PowerEntries"))
+		ok := len(m) == 1 && (m[0].Arg(0) == "$0" || m[0].Arg(0) == "&$0" || strings.HasSuffix(m[0].Arg(0), "gpbft.PowerEntries"))
 		r.Check(ok, "C04.R7", "MakePowerTableCID: CID of the CBOR of the table exactly as given", p.c.Pos(c.Pos()), "pt.MarshalCBOR", "the CID is no longer computed over the table as given")
 		p.guarded("C04.R7", c, constReturnsNilErr(c), errFails("serialises", "gpbft.PowerEntries.MarshalCBOR", ""))
 	}
